@@ -71,6 +71,8 @@ type Case struct {
 	// Sys != nil: a whole-instance scenario (several integrations per receiver) for the per-integration identity of the
 	// log entries as the notification pipeline uses them (sys_test.go)
 	Sys *sysrun.Scenario `json:"sys,omitempty"`
+	// BigN > 0: the big-entry part (big_test.go)
+	BigN int `json:"big_n,omitempty"`
 }
 
 var receivers = []*pb.Receiver{
@@ -636,7 +638,9 @@ func TestCheck(t *testing.T) {
 		if err := vh.LoadReplayCase(env.Replay, &c); err != nil {
 			t.Fatal(err)
 		}
-		if c.Sys == nil {
+		if c.BigN > 0 {
+			runBig(t, run, BigCase{N: c.BigN})
+		} else if c.Sys == nil {
 			cases = append(cases, c)
 		}
 	} else {
@@ -674,6 +678,9 @@ func TestCheck(t *testing.T) {
 	if race.Rounds > 0 {
 		st, fs := nfrace.Run(t, race)
 		nfrace.Report(run, st, fs)
+	}
+	if env.Replay == "" {
+		bigPart(t, env, run, nil)
 	}
 	if err := run.Finish("random histories of Log/Merge/GC/Query/Reload over 2 group keys x 2 receivers under synctest virtual time; after every op all 4 keys are queried; non-trivial = has a Merge and (a Log or a GC that removed something); distinct by full history text"); err != nil {
 		t.Fatal(err)
